@@ -29,7 +29,7 @@ class C13(Check):
     reference_models = ["write monitor: event log of the simulated disk + sha256 of the image before/after"]
 
     def budget(self, tier):
-        return {"runs": 260, "wall_s": 75} if tier == "quick" else {"runs": 20000, "wall_s": 1200}
+        return {"runs": 900, "wall_s": 90} if tier == "quick" else {"runs": 20000, "wall_s": 1200}
 
     def generate(self, rng, tier):
         kind = rng.weighted([("clean", 2), ("journal", 4), ("orphan", 3), ("mmp", 1), ("faults", 5),
@@ -60,11 +60,25 @@ class C13(Check):
                 undo = os.path.join(wd, "undo.e2undo")
                 if os.path.exists(undo):
                     os.unlink(undo)
-                run_sim([tool("tune2fs"), "-z", undo, "-L", "c13lbl", "-r", "11", img], Plan([img], None, clock=1500003000), wd, tag="mkundo")
-                if not os.path.exists(undo):
+                # the undo file is finished, left unfinished by its writer (the writer dies before marking it complete: what
+                # UNDO_IO_SIMULATE_UNFINISHED stands in for, or a kill at a seeded event), or has one flipped bit
+                variant = irng.weighted([("finished", 3), ("unfinished", 3), ("killed", 2), ("bitflip", 2)])
+                env = {"UNDO_IO_SIMULATE_UNFINISHED": "1"} if variant == "unfinished" else None
+                kf = [("crash", -1, irng.range(3, 14), 0, 0)] if variant == "killed" else []
+                run_sim([tool("tune2fs"), "-z", undo, "-L", "c13lbl", "-r", "11", "-O", "^dir_index", img],
+                        Plan([img, undo], None, clock=1500003000, faults=kf), wd, tag="mkundo", env=env)
+                if not os.path.exists(undo) or os.path.getsize(undo) < 1024:
                     o.stats["skip.e2undo-n"] += 1
                     continue
-                argv = [tool("e2undo"), "-n", undo, img]
+                if variant == "bitflip":
+                    with open(undo, "r+b") as f:
+                        pos = irng.below(os.path.getsize(undo))
+                        f.seek(pos)
+                        c = f.read(1)
+                        f.seek(pos)
+                        f.write(bytes([c[0] ^ (1 << irng.below(8))]))
+                o.stats["undo_variant." + variant] += 1
+                argv = [tool("e2undo"), "-n"] + (["-f"] if irng.chance(0.3) else []) + [undo, img]
             else:
                 argv = ro_argv(inv, st, wd, irng)
             before = file_sha(img)
